@@ -374,4 +374,19 @@ theorem contactFromEpa2_consistent (hs : LawfulSqrt sq) (pos12 : Iso2 K) (hu : p
 
 example : (3 / 5 : ℚ) * (3 / 5) + (4 / 5) * (4 / 5) = 1 := by norm_num
 
+/-- **The 2-D "silhouette" is two edges: an expansion replaces the queued edge `a → b` by the chain `a → s → b`.**
+Every loop iteration that continues either only discards a deleted face from the heap (vertices and faces unchanged), or
+pushes exactly one vertex `s` (the support point along the normal of a queued face `[a, b]`) and appends exactly the two
+faces `[a, s]` and `[s, b]`: the boundary of the expanding polygon stays a closed chain through the same end points. -/
+theorem epa2_expansion_splits_face (supp1 supp2 : V2 K → V2 K) (st st' : Epa2State K)
+    (h : letI := fieldNum K sq; epa2Step supp1 supp2 st = .inr st') :
+    letI := fieldNum K sq
+    (st'.vertices = st.vertices ∧ st'.faces = st.faces) ∨
+    ∃ (fid : FaceId2 K) (face g1 g2 : Face2 K), fid ∈ st.heap ∧ st.faces[fid.id]? = some face ∧
+      st'.vertices = st.vertices.push (csoFromShapes supp1 supp2 face.normal) ∧
+      st'.faces = (st.faces.push g1).push g2 ∧
+      g1.pts0 = face.pts0 ∧ g1.pts1 = st.vertices.size ∧ g2.pts0 = st.vertices.size ∧ g2.pts1 = face.pts1 := by
+  letI := fieldNum K sq
+  exact step_splits_face h
+
 end C02
